@@ -436,6 +436,12 @@ func (fr *Frame) applyContract(instr ssa.Instruction, bc *BoundContract, sig *ty
 func (fr *Frame) havocLoc(env *Env, x Expr, st *State, reach *Term) error {
 	c := fr.c
 	if id, ok := x.(*EIdent); ok {
+		if id.Name == "anyheap" {
+			// any object may change; ghost state only as listed
+			c.havocAll(st, reach, func(k string) bool { return strings.HasPrefix(k, "G:") })
+			c.V.assumeGlobalAxioms(c, st, reach)
+			return nil
+		}
 		if id.Name == "everything" {
 			c.havocAll(st, reach, nil)
 			c.V.assumeGlobalAxioms(c, st, reach)
@@ -448,6 +454,28 @@ func (fr *Frame) havocLoc(env *Env, x Expr, st *State, reach *Term) error {
 			}
 			c.key("G:"+id.Name, s)
 			c.havoc(st, "G:"+id.Name)
+			return nil
+		}
+	}
+	// fields(p): every field of the struct p points to;  deref(p): the cell p points to
+	if call, ok := x.(*ECall); ok {
+		if id, ok := call.Fun.(*EIdent); ok && (id.Name == "fields" || id.Name == "deref") && len(call.Args) == 1 {
+			ne := *env
+			ne.st = st
+			targets := map[string][]*Term{}
+			c.frameTargets(&ne, x, targets)
+			ks := make([]string, 0, len(targets))
+			for k := range targets {
+				ks = append(ks, k)
+			}
+			sort.Strings(ks)
+			for _, k := range ks {
+				srt := c.keys[k].sort
+				_, el, _ := arrParts(srt)
+				for _, o := range targets[k] {
+					c.set(st, k, tStore(c.get(st, k, srt), o, c.sc.freshConst("mod_f", el)))
+				}
+			}
 			return nil
 		}
 	}
@@ -505,20 +533,25 @@ func (fr *Frame) havocLoc(env *Env, x Expr, st *State, reach *Term) error {
 		if err != nil {
 			return err
 		}
-		if p, ok := recv.Typ.Underlying().(*types.Pointer); ok {
-			if stt, ok := p.Elem().Underlying().(*types.Struct); ok {
-				for i := 0; i < stt.NumFields(); i++ {
-					if stt.Field(i).Name() == sel.Name {
-						f := stt.Field(i)
-						if s, ok := sortOf(f.Type()); ok {
-							k := fieldKey(p.Elem(), f)
-							cur := c.get(st, k, ArrSort(SV, s))
-							fresh := c.sc.freshConst("mod_"+f.Name(), s)
-							c.set(st, k, tStore(cur, recv.T, fresh))
-							return nil
-						}
+		if recv.T != nil && recv.Typ != nil {
+			ne := *env
+			ne.st = st
+			targets := map[string][]*Term{}
+			c.frameTargets(&ne, x, targets)
+			if len(targets) > 0 {
+				ks := make([]string, 0, len(targets))
+				for k := range targets {
+					ks = append(ks, k)
+				}
+				sort.Strings(ks)
+				for _, k := range ks {
+					srt := c.keys[k].sort
+					_, el, _ := arrParts(srt)
+					for _, o := range targets[k] {
+						c.set(st, k, tStore(c.get(st, k, srt), o, c.sc.freshConst("mod_f", el)))
 					}
 				}
+				return nil
 			}
 		}
 	}
